@@ -1188,6 +1188,22 @@ func runHistory(r *vkit.R, id int, g *vkit.Rand, longWait bool, hungProbe bool) 
 					late = append(late, float64(t-tRemoved)/1e6)
 				}
 			}
+			// The first 500 ms are not exempt altogether: what the grace stands for is the probe that was on its way when the
+			// sync returned, and an endpoint has ONE checker that probes sequentially (two while the checker of an earlier
+			// disable/enable generation finishes its probe). More than two /healthz requests of this cluster in the grace
+			// window cannot be in-flight probes (a stub that closes connections makes one probe call retry; not used here).
+			early := 0
+			for _, t := range h.probesFrom(s, nameA) {
+				if t > tRemoved && t <= tRemoved+int64(settle) {
+					early++
+				}
+			}
+			r.Count("probes_within_the_grace_window_after_removal", early)
+			if early > 2 && !(hungProbe && s == e1) {
+				r.Violation(fmt.Sprintf("C15/%s/probe-after-removal/more-than-the-in-flight-ones-within-the-grace-window%s", kind, failing),
+					fmt.Sprintf("%s: the stub of the removed target logged %d /healthz probes within %v after the removing sync returned; at most two can have been in flight when it returned", kind, early, settle),
+					wit(nil, map[string]interface{}{"stub": s, "probes_in_grace_window": early}))
+			}
 			r.Count("removed_targets_probe_checked", 1)
 			if len(late) > 0 {
 				class := "idle-at-removal"
